@@ -254,6 +254,12 @@ func (in *objIndex) control() error {
 		if in.Fields[fn].Len() != in.len() {
 			return fmt.Errorf("index and fields index must have the same size, len(index)=%d len(index[%s])=%d", in.len(), fn, in.Fields[fn].Len())
 		}
+		// every object must be indexed (once, given the sizes) by every field index
+		for id := range in.ObjectIds {
+			if _, ok := in.Fields[fn].objectIds[id]; !ok {
+				return fmt.Errorf("field index %s does not index object id %d", fn, id)
+			}
+		}
 	}
 	return nil
 }
